@@ -136,10 +136,11 @@ class St:
 
 
 class Oblig:
-    __slots__ = ('name', 'hyps', 'goal', 'fn', 'line', 'kind', 'extra', 'opaque')
+    __slots__ = ('name', 'hyps', 'goal', 'fn', 'line', 'kind', 'extra', 'opaque', 'small')
 
     def __init__(s, name, hyps, goal, fn, line, kind, extra=None, opaque=()):
         s.name, s.hyps, s.goal, s.fn, s.line, s.kind, s.extra, s.opaque = name, hyps, goal, fn, line, kind, extra or [], tuple(opaque)
+        s.small = None      # optional subset of hyps tried first (a proof from fewer hypotheses is a proof; a `sat` there means nothing)
 
 
 # ------------------------------------------------------------------ module loading
@@ -672,6 +673,11 @@ class VCGen:
         if op is ast.Pow:
             kb = simplify(b)
             ka = simplify(a)
+            from z3 import is_rational_value
+            if (is_int_value(ka) or is_rational_value(ka)) and is_int_value(kb) and kb.as_long() < 0:
+                # a closed power with a negative exponent: the value CPython computes (a float), as an exact rational
+                base_ = ka.as_long() if is_int_value(ka) else float(ka.as_fraction())
+                return s.ev_Constant(ast.Constant(float(base_) ** kb.as_long()), st)
             if is_int_value(kb) and kb.as_long() >= 0 and t == INT:
                 r = IntVal(1)
                 for _ in range(kb.as_long()):
@@ -1966,7 +1972,10 @@ class VCGen:
                 excl = []
                 for ex in mod[f]:
                     excl.append(s.spec_frame_set(ex, o, st))
+                # proved from a small context: quantifier-free facts plus the quantified facts that mention a version of this field's
+                # heap array (the callees' frame conditions); dropping hypotheses is always sound
                 s.oblige(st, f'frame:{f}@{tag}', Implies(Not(Or(*excl)) if excl else BoolVal(True), st.heap[f][o] == old.heap[f][o]), line, 'frame')
+                s.obligs[-1].small = [h0 for h0 in st.pc if not _has_quant(h0) or _mentions_prefix(h0, ('H_' + f, 'alloc_o'))]
         lm = mod.get('__lists__', [])
         if lm != 'all':
             for e0 in st.lheap:
@@ -2512,6 +2521,8 @@ class VCGen:
             if target is not None:
                 s.assign(target, v, t, st, line)
             return [st]
+        for h_ in s.cur.get('assume_at_call', {}).get(q.split('.', 1)[1], []):
+            s.assume(st, h_)
         outs = s.apply_contract(q, recv, c, st, line)
         res = []
         for kind, t, v, ty in outs:
@@ -2726,11 +2737,15 @@ class VCGen:
         for p, t in c['params'].items():
             st.env[p] = (Const(p, sort(t)), t)
             st.pc += s.wf_facts(st.env[p][0], t)
+        for p, t in c.get('suffix_locals', {}).items():       # locals already bound when a suffix contract starts
+            st.env[p] = (Const(p, sort(t)), t)
+            st.pc += s.wf_facts(st.env[p][0], t)
         return st
 
     def run(s, qual, impl_of=None):
         c = dict(s.contracts[qual])
         modname, rest = qual.split('.', 1)
+        rest = rest.split('@')[0]          # 'module.Class.method@variant': a second contract for the same function (e.g. a suffix of it)
         mod = s.modules[modname]
         fn = mod.find(rest)
         if fn is None:
@@ -2768,11 +2783,18 @@ class VCGen:
             st.pc.append(AXIOMS[a])
         for v in sorted(s.assigned_names(fn.body)):
             if v not in c['params']:
-                st.env['__b_' + v] = (BoolVal(False), BOOL)
+                st.env['__b_' + v] = (BoolVal(v in c.get('suffix_locals', {})), BOOL)
         st.old = st.clone()
         n0 = len(s.obligs)
         # local variables assigned somewhere but not yet bound
-        for t in s.block(fn.body, st):
+        body = fn.body
+        sa = c.get('start_after_assign')
+        if sa:          # the contract covers the function FROM the statement after the top-level assignment to `sa` (its value is a symbolic local)
+            idx = [i for i, x in enumerate(body) if isinstance(x, ast.Assign) and len(x.targets) == 1 and isinstance(x.targets[0], ast.Name) and x.targets[0].id == sa]
+            if not idx:
+                raise ContractError(f'{qual}: the assignment to {sa!r} that starts the contracted suffix was not found')
+            body = body[idx[0] + 1:]
+        for t in s.block(body, st):
             s.exit_normal(t, BoolVal(False), NONE, fn.body[-1].lineno)
         if c.get('cut_before_assign') and not c.get('_cut_reached'):
             raise ContractError(f'{qual}: the assignment to {c["cut_before_assign"]!r} that ends the contracted prefix was not found')
@@ -2945,6 +2967,24 @@ def _is_nonlinear_product(v):
     from z3 import is_mul
     v = simplify(v)
     return is_mul(v) and sum(1 for c in v.children() if not is_int_value(c)) >= 2
+
+
+def _mentions_prefix(e, prefixes):
+    seen = set()
+    stack = [e]
+    while stack:
+        x = stack.pop()
+        k = x.get_id()
+        if k in seen:
+            continue
+        seen.add(k)
+        if is_quantifier(x):
+            stack.append(x.body())
+        elif is_app(x):
+            if x.num_args() == 0 and x.decl().kind() == Z3_OP_UNINTERPRETED and x.decl().name().startswith(prefixes):
+                return True
+            stack.extend(x.children())
+    return False
 
 
 def _has_quant(e):
